@@ -124,7 +124,7 @@ impl Check for C11 {
         Plan { cases: if tier == Tier::Quick { 2500 } else { 40_000 }, max_len: 4096 }
     }
     fn rule(&self) -> String {
-        "choice sequence -> valid file (as C09: bare/container, split jxlp, aux boxes, multi-section / multi-pass / squeezed Modular frames, permuted TOCs) x cut positions (every byte when the file is <= 500 bytes in quick / 3 KiB in thorough, else a structure-boundary-biased sample of 48) x a generated subset of cuts at which render_loading_frame is attempted. Oracle per cut: feed_bytes and try_init never return Err; render_loading_frame is Ok with planar dimensions equal to the oriented image size or an error classified as need-more-data (IncompleteFrame / unexpected EOF anywhere in the error chain); after the rest is fed, headers, counts, offsets, aux data and every keyframe's samples are bit-identical to the uninterrupted decode. An evaluation = one (file, cut). Non-trivial: cut strictly inside the first frame's data with a loading render attempted; distinct by FNV of (file, cut).".into()
+        "choice sequence -> valid file (as C09: bare/container, split jxlp, aux boxes, multi-section / multi-pass / squeezed Modular frames, permuted TOCs) x cut positions (every byte when the file is <= 500 bytes in quick / 3 KiB in thorough and not VarDCT, else a structure-boundary-biased sample of 48 (12 for VarDCT files in quick)) x a generated subset of cuts at which render_loading_frame is attempted. Oracle per cut: feed_bytes and try_init never return Err; render_loading_frame is Ok with planar dimensions equal to the oriented image size or an error classified as need-more-data (IncompleteFrame / unexpected EOF anywhere in the error chain); after the rest is fed, headers, counts, offsets, aux data and every keyframe's samples are bit-identical to the uninterrupted decode. An evaluation = one (file, cut). Non-trivial: cut strictly inside the first frame's data with a loading render attempted; distinct by FNV of (file, cut).".into()
     }
     fn run(&self, choice: &[u8], describe: bool) -> Outcome {
         let mut src = Src::new(choice);
@@ -133,15 +133,29 @@ impl Check for C11 {
         let rseed = u64::from_le_bytes(cbytes[..8].try_into().unwrap());
         let fixed = choice.starts_with(b"\xffRAW");
         let opts = ModGenOpts { max_dim: 200, multi_group: 40, ..Default::default() };
-        let (case, file) = if fixed { fixed_modular_file(choice.get(4).copied().unwrap_or(2)) } else { gen_modular_file(&mut src, &opts) };
+        let _ = &opts;
+        let (case, file) = if fixed {
+            let (m, f) = fixed_modular_file(choice.get(4).copied().unwrap_or(2));
+            (AnyCase { bytes: m.bytes, classes: m.classes, layouts: vec![m.layout], header_len: m.header_len, kind: "modular", size: (m.ih.width, m.ih.height), orientation: 1, has_parallel_work: false, has_neighbourhood_feature: false, desc: String::new() }, f)
+        } else {
+            let mut ao = AnyOpts::default();
+            ao.modular.max_dim = 200;
+            ao.vardct.boundary = 8;
+            ao.vardct.big_square = 0;
+            ao.vardct.multi_lf_group = 0;
+            gen_any_file(&mut src, &ao)
+        };
         let thorough = std::env::var("VERIF_TIER").map(|t| t == "thorough").unwrap_or(false);
         let all_limit = if thorough { 3072 } else { 500 };
         let n = file.file.len();
-        let cuts: Vec<usize> = if n <= all_limit || fixed {
+        // a VarDCT decode costs ~10 ms in dequantisation-matrix setup alone: sample its cuts
+        let heavy = case.kind == "vardct";
+        let n_sampled = if heavy && !thorough { 12 } else { 48 };
+        let cuts: Vec<usize> = if (n <= all_limit && !heavy) || fixed {
             (0..n).collect()
         } else {
             let mut v: Vec<usize> = vec![];
-            for _ in 0..48 {
+            for _ in 0..n_sampled {
                 let c = if csrc.chance(180) && !file.marks.is_empty() {
                     (file.marks[csrc.below(file.marks.len())] as i64 + csrc.range_i(-3, 9)).clamp(0, n as i64 - 1) as usize
                 } else {
@@ -153,12 +167,15 @@ impl Check for C11 {
             v.dedup();
             v
         };
+        if std::env::var_os("VERIF_DEBUG").is_some() {
+            eprintln!("C11 case: {} file_len={} cuts={:?}", case.desc, file.file.len(), cuts);
+        }
         let mut o = Outcome::pass();
         o.case_hash = crate::engine::fnv(&file.file) | 1;
         o.classes = file.classes.clone();
-        o.classes.extend(case.classes.iter().filter(|c| c.starts_with("toc:") || c.starts_with("multi") || c.starts_with("tx:squeeze")).cloned());
+        o.classes.extend(case.classes.iter().filter(|c| c.starts_with("toc:") || c.starts_with("multi") || c.starts_with("tx:squeeze") || c.starts_with("image:")).cloned());
         if describe {
-            o.describe = Some(json!({"file_len": n, "cuts": cuts.len(), "classes": o.classes, "image": crate::checks::c03::describe_case(&case)}));
+            o.describe = Some(json!({"file_len": n, "cuts": cuts.len(), "classes": o.classes, "image": case.desc}));
         }
         let baseline = match open(&file.file, &DecodeOpts::default()) {
             Ok(i) => observe(&i, true),
@@ -167,14 +184,25 @@ impl Check for C11 {
                 return o;
             }
         };
+        if std::env::var_os("VERIF_DEBUG").is_some() {
+            for (i, fh) in baseline.frame_headers.iter().enumerate() {
+                eprintln!("C11 frame {i} @{:?}: {fh}", baseline.frame_offsets.get(i));
+            }
+            if let Ok(p) = std::env::var("VERIF_DUMP") {
+                let _ = std::fs::write(p, &file.file);
+            }
+        }
         // oriented size
-        let (w, h) = if case.ih.orientation >= 5 { (case.ih.height, case.ih.width) } else { (case.ih.width, case.ih.height) };
+        let (w, h) = if case.orientation >= 5 { (case.size.1, case.size.0) } else { case.size };
         let mut inside_with_render = 0;
         let (mut n_need, mut n_init, mut n_lr_ok, mut n_lr_more) = (0, 0, 0, 0);
         for &cut in &cuts {
             // per-cut decision derived from the seed (does not consume the choice sequence)
             let hsh = (rseed ^ (cut as u64).wrapping_mul(0x9E3779B97F4A7C15)).wrapping_mul(0xBF58476D1CE4E5B9) >> 56;
             let try_render = fixed || hsh < 150;
+            if std::env::var_os("VERIF_DEBUG").is_some() {
+                eprintln!("C11 cut {cut} try_render={try_render}");
+            }
             match run_cut(&file.file, cut, try_render, (w, h), &baseline) {
                 CutResult::Fail(sig, detail) => {
                     o.nontrivial = true;
